@@ -21,6 +21,7 @@
  */
 
 #include <cctype>
+#include <climits>
 #include <cstdarg>
 #include <cstdio>
 #include <cstdlib>
@@ -249,6 +250,10 @@ void FormatRST(fmt::Writer &w,
 int OptionHelper<int>::Parse(const char *&s, bool) {
   char *end = 0;
   long value = std::strtol(s, &end, 10);
+  if (value < INT_MIN || value > INT_MAX)
+    throw OptionError(fmt::format(
+        "Invalid value \"{}\" for an integer option: out of range",
+        std::string(s, end - s)));
   s = end;
   return value;
 }
